@@ -156,6 +156,9 @@ pub trait Engine {
     where
         Self: Sized,
     {
+        #[cfg(feature = "verif-hooks")]
+        crate::verif_hooks::trace(crate::verif_hooks::ISA_PORTABLE, crate::verif_hooks::PRIM_EVAL_POLY);
+
         utils::eval_poly(erasures, truncated_size);
     }
 }
